@@ -34,6 +34,8 @@ def make_potential(case, gpts=None):
     kw = dict(slice_thickness=case["st"], projection=case["projection"])
     if gpts is not None:
         kw["gpts"] = tuple(gpts)
+    elif case.get("nogrid"):
+        pass  # the grid comes from the waves of the first simulation (`grid.match`)
     elif "gpts0" in case:
         kw["gpts"] = tuple(case["gpts0"])
     else:
@@ -50,6 +52,10 @@ def apply_op(pot, op):
         pot.gpts = tuple(op[1])
     elif op[0] == "sampling":
         pot.sampling = tuple(op[1])
+    elif op[0] == "match":  # what `validate_potential(potential, waves)` does at the start of a simulation
+        import abtem
+
+        pot.grid.match(abtem.PlaneWave(gpts=tuple(op[1]), energy=100e3))
     else:
         raise ValueError(op)
 
@@ -122,10 +128,14 @@ def traced():
 def impl_trace(case):
     """run the history on ONE potential object; returns (driver tokens, reply in the driver's wire format)"""
     pot = make_potential(case)
+    ops = case["ops"]
+    if case.get("nogrid"):
+        apply_op(pot, ops[0])
+        ops = ops[1:]
     toks = [grid_token(pot)]
     builds = []
     with traced() as trace:
-        for op in case["ops"]:
+        for op in ops:
             if op[0] == "build":
                 del trace[:]
                 k = len(case["phonons"]) if case.get("phonons") else None
@@ -167,6 +177,11 @@ def gen_case(ctx: Ctx, projection=None, nops=None):
             ops.append(["sampling", rng.choice([[0.5, 0.5], [0.25, 0.25], [0.4, 0.4], [0.5, 0.25], [1 / 3, 1 / 3]])])
     if not any(o[0] == "build" for o in ops):
         ops.append(["build", "eager"])
+    if rng.random() < 0.15:  # potential without a grid of its own: the first simulation's waves define it
+        case.pop("gpts0", None)
+        case.pop("sampling0", None)
+        case["nogrid"] = True
+        ops = [["match", rng.choice([[8, 8], [12, 12], [8, 12], [16, 16]])]] + ops
     case["ops"] = ops
     return case
 
@@ -226,12 +241,13 @@ class C11(Property):
         # single-species potentials, each built with its own fresh integrator
         species = sorted(set(case["symbols"]))
         if len(species) > 1 and not case.get("phonons"):  # (random displacements depend on the atom count: no split for phonons)
-            whole = np.asarray(make_potential(case).build(lazy=False).array)
+            g0 = case.get("gpts0") or [8, 8]
+            whole = np.asarray(make_potential(case, gpts=g0).build(lazy=False).array)
             parts = 0
             for sp in species:
                 idx = [i for i, s in enumerate(case["symbols"]) if s == sp]
                 sub = dict(case, symbols=[case["symbols"][i] for i in idx], positions=[case["positions"][i] for i in idx])
-                parts = parts + np.asarray(make_potential(sub).build(lazy=False).array)
+                parts = parts + np.asarray(make_potential(sub, gpts=g0).build(lazy=False).array)
             ctx.evaluations += 1
             if not np.allclose(whole, parts, rtol=1e-4, atol=1e-4 * max(1.0, float(np.abs(whole).max()))):
                 ctx.violation(f"species-mixed-up-in-cache-{case['projection']}", case,
@@ -274,6 +290,8 @@ class C11(Property):
         [["build", "eager"], ["gpts", [16, 16]], ["build", "lazy"], ["gpts", [8, 8]], ["build", "lazy"]],
         [["gpts", [16, 16]], ["build", "eager"], ["gpts", [10, 10]], ["build", "eager"], ["gpts", [12, 12]], ["build", "eager"]],  # coarsen, refine
         [["build", "eager"], ["sampling", [0.25, 0.25]], ["simulate"], ["sampling", [0.5, 0.5]], ["simulate"]],
+        [["match", [8, 8]], ["build", "eager"], ["gpts", [12, 12]], ["build", "eager"]],       # grid first set by grid.match(waves)
+        [["match", [12, 8]], ["simulate"], ["gpts", [8, 8]], ["simulate"], ["gpts", [16, 16]], ["build", "lazy"]],
     ]
 
     def conformance(self, ctx: Ctx):
@@ -281,8 +299,14 @@ class C11(Property):
             for ops in self.DIRECTED:
                 c = gen_case(ctx, projection=proj)
                 c.pop("sampling0", None)
+                c.pop("nogrid", None)
                 c["gpts0"] = [8, 8]
                 c["ops"] = [list(o) for o in ops]
+                if ops[0][0] == "match":
+                    c.pop("gpts0")
+                    c["nogrid"] = True
+                elif c["ops"] and c["ops"][0][0] == "match":
+                    c["ops"] = c["ops"][1:]
                 if len(ops) % 2 == 0 and proj == "finite":
                     c["phonons"] = [ctx.rng.randint(0, 10 ** 6) for _ in range(2)]
                 self.oracle(ctx, c)
